@@ -76,9 +76,11 @@ var plans = map[string]*Plan{
 		Rule: "generated histories (15-60 ops: writes/reads of sector, in-block, spanning, block, multi-block, first/last and ownership-straddling shape; user/auto snapshots; cleaner and raw removals; reverts; reopen +-preload; reload; resize) on volumes of 16-512 blocks with reclamation on/off; " +
 			"a case is non-trivial if it has >=1 unaligned write, >=1 chain mutation and >=1 reopen/reload; distinct = hash of the op-kind/alignment-class sequence",
 		Assumptions: rengAssume,
-		Floor:       map[string]int64{"writes": 200, "quiescent_checks": 50},
+		Floor:       map[string]int64{"writes": 200, "quiescent_checks": 50, "range_probes": 20},
 		Jobs: func(tier string) []Job {
-			return jobs("reng", 16, tierN(tier, 6, 120), "", time.Duration(tierN(tier, 10, 60))*time.Minute)
+			js := jobs("reng", 14, tierN(tier, 7, 135), "", time.Duration(tierN(tier, 10, 60))*time.Minute)
+			// the controller's range check on the controller engine
+			return append(js, jobs("ctlsim", 2, tierN(tier, 50, 1250), "", time.Duration(tierN(tier, 10, 60))*time.Minute)...)
 		},
 		CrashSig: rengCrash("C01"),
 	},
@@ -133,9 +135,11 @@ var plans = map[string]*Plan{
 		Rule: "histories with 1-5 growths (byte counts and human-readable sizes, 1-24 blocks) interleaved with I/O of all shapes, snapshots, removals, reverts and reopen; shrink, garbage, empty and zero sizes must be refused without change; after growth: old range unchanged, new range zero and writable, every snapshot image = old image + zeros, size survives reopen; " +
 			"non-trivial as C01; distinct = hash of the op-kind sequence",
 		Assumptions: rengAssume,
-		Floor:       map[string]int64{"resizes": 30, "resize_refusals_probed": 20},
+		Floor:       map[string]int64{"resizes": 30, "resize_refusals_probed": 20, "controller_resizes": 20},
 		Jobs: func(tier string) []Job {
-			return jobs("reng", 16, tierN(tier, 6, 100), "", time.Duration(tierN(tier, 10, 80))*time.Minute)
+			js := jobs("reng", 12, tierN(tier, 8, 130), "", time.Duration(tierN(tier, 10, 80))*time.Minute)
+			// controller side of Resize on the controller engine
+			return append(js, jobs("ctlsim", 4, tierN(tier, 50, 1250), "", time.Duration(tierN(tier, 10, 60))*time.Minute)...)
 		},
 		CrashSig: rengCrash("C16"),
 	},
